@@ -13,11 +13,29 @@ use paseto_core::version::{Local, PkePublic, Secret};
 use std::cell::RefCell;
 use std::str::FromStr;
 
-thread_local! {
-    static SCRIPT: RefCell<(Vec<Option<Vec<u8>>>, usize)> = const { RefCell::new((Vec::new(), 0)) };
+/// one scripted answer of the random source
+#[derive(Clone)]
+enum Ans {
+    Bytes(Vec<u8>),      // exactly these bytes (length must match the request, otherwise the draw fails)
+    Any,                 // `*`: succeeds with a deterministic, draw-dependent pattern of the requested length
+    Fail(i32),           // `!` (UNSUPPORTED), `!eN` (OS error N, e.g. 11 = EAGAIN, 4 = EINTR, 5 = EIO), `!cN` (custom error N)
+    Partial(Vec<u8>),    // `~hex`: writes these bytes at the start of the buffer, then reports failure
 }
 
-/// the custom getrandom 0.3 backend: answers come from the operation line
+thread_local! {
+    static SCRIPT: RefCell<(Vec<Ans>, usize, usize)> = const { RefCell::new((Vec::new(), 0, 0)) };   // answers, next index, failures consumed
+}
+
+#[cfg(pm_custom_rng)]
+fn mk_err(code: i32) -> getrandom::Error {
+    match code {
+        0 => getrandom::Error::UNSUPPORTED,
+        c if c < 0 => getrandom::Error::new_custom((-c) as u16),
+        // OS errors are stored negated in getrandom 0.3's `Error(NonZeroI32)`; there is no public constructor
+        c => unsafe { std::mem::transmute::<i32, getrandom::Error>(-c) },
+    }
+}
+
 #[cfg(pm_custom_rng)]
 #[unsafe(no_mangle)]
 unsafe extern "Rust" fn __getrandom_v03_custom(dest: *mut u8, len: usize) -> Result<(), getrandom::Error> {
@@ -25,25 +43,48 @@ unsafe extern "Rust" fn __getrandom_v03_custom(dest: *mut u8, len: usize) -> Res
         let mut s = s.borrow_mut();
         let i = s.1;
         s.1 += 1;
-        match s.0.get(i) {
-            Some(Some(b)) if b.len() == len => {
+        let a = s.0.get(i).cloned();
+        match a {
+            Some(Ans::Bytes(b)) if b.len() == len => {
                 unsafe { std::ptr::copy_nonoverlapping(b.as_ptr(), dest, len) };
                 Ok(())
             }
-            _ => Err(getrandom::Error::UNSUPPORTED),
+            Some(Ans::Any) => {
+                for k in 0..len { unsafe { *dest.add(k) = (0x5b ^ (i as u8).wrapping_mul(37) ^ (k as u8).wrapping_mul(101)).wrapping_add((k >> 8) as u8) }; }
+                Ok(())
+            }
+            Some(Ans::Fail(c)) => { s.2 += 1; Err(mk_err(c)) }
+            Some(Ans::Partial(b)) => {
+                let n = b.len().min(len);
+                unsafe { std::ptr::copy_nonoverlapping(b.as_ptr(), dest, n) };
+                s.2 += 1;
+                Err(getrandom::Error::UNEXPECTED)
+            }
+            _ => { s.2 += 1; Err(getrandom::Error::UNSUPPORTED) }
         }
     })
 }
 
 fn set_script(src: &str) -> Option<()> {
-    let answers: Option<Vec<Option<Vec<u8>>>> = if src == "." {
+    let answers: Option<Vec<Ans>> = if src == "." {
         Some(vec![])
     } else {
-        src.split(',').map(|a| if a == "!" { Some(None) } else { unhex(a).map(Some) }).collect()
+        src.split(',').map(|a| {
+            if a == "!" { Some(Ans::Fail(0)) }
+            else if a == "*" { Some(Ans::Any) }
+            else if let Some(n) = a.strip_prefix("!e") { n.parse::<i32>().ok().filter(|x| *x > 0).map(Ans::Fail) }
+            else if let Some(n) = a.strip_prefix("!c") { n.parse::<i32>().ok().filter(|x| *x > 0).map(|x| Ans::Fail(-x)) }
+            else if let Some(h) = a.strip_prefix('~') { unhex(h).map(Ans::Partial) }
+            else { unhex(a).map(Ans::Bytes) }
+        }).collect()
     };
     let answers = answers?;
-    SCRIPT.with(|s| *s.borrow_mut() = (answers, 0));
+    SCRIPT.with(|s| *s.borrow_mut() = (answers, 0, 0));
     Some(())
+}
+
+fn script_stats() -> (usize, usize) {
+    SCRIPT.with(|s| { let s = s.borrow(); (s.1, s.2) })
 }
 
 fn en(e: PasetoError) -> String {
@@ -55,6 +96,58 @@ pub fn exec_more(t: &[&str]) -> R {
     let hx = |i: usize| -> Result<Vec<u8>, String> { t.get(i).and_then(|s| unhex(s)).ok_or_else(bad) };
     let be = |i: usize| -> Result<Be, String> { t.get(i).and_then(|s| Be::parse(s)).ok_or_else(bad) };
     let kd = |i: usize| -> Result<Kind, String> { t.get(i).and_then(|s| Kind::parse(s)).ok_or_else(bad) };
+    if t[0] == "o.rngf" {
+        // oracle-only: any randomised operation of a getrandom-0.3-based back end under a scripted random source; reports whether the
+        // operation produced an artefact and how many *failing* answers it consumed (sound for operations that draw elsewhere:
+        // nothing consumed, nothing claimed)
+        if !cfg!(pm_custom_rng) {
+            return Err(bad());
+        }
+        let kind = *t.get(1).ok_or_else(bad)?;
+        let b = be(2)?;
+        if matches!(b, Be::V3Lc | Be::V4S) {
+            return Err(bad());
+        }
+        set_script(t.get(3).ok_or_else(bad)?).ok_or_else(bad)?;
+        let key32 = [0x11u8; 32];
+        let r: Result<String, String> = with_v!(b, V => (|| -> Result<String, String> {
+            match kind {
+                "encrypt" => {
+                    let k = key_of::<V, Local>(&key32).map_err(en)?;
+                    Ok(UnsealedToken::<V, Local, Raw>::new(Raw(b"msg".to_vec())).encrypt(&k).map_err(en)?.to_string())
+                }
+                "sign" => {
+                    let sk = key_of::<V, Secret>(&hx(4)?).map_err(en)?;
+                    Ok(UnsealedToken::<V, paseto_core::version::Public, Raw>::new(Raw(b"msg".to_vec())).sign(&sk).map_err(en)?.to_string())
+                }
+                "pie" => {
+                    let wk = key_of::<V, Local>(&key32).map_err(en)?;
+                    Ok(key_of::<V, Local>(&[0x22u8; 32]).map_err(en)?.wrap_pie(&wk).map_err(en)?.to_string())
+                }
+                "pw" => {
+                    let donor = String::from_utf8(hx(4)?).map_err(|_| bad())?;
+                    let params = PasswordWrappedKey::<V, Local>::from_str(&donor).map_err(en)?.params().map_err(en)?;
+                    Ok(key_of::<V, Local>(&[0x22u8; 32]).map_err(en)?.password_wrap_with_params(b"pw", &params).map_err(en)?.to_string())
+                }
+                "seal" => {
+                    let pk = key_of::<V, PkePublic>(&hx(4)?).map_err(en)?;
+                    Ok(key_of::<V, Local>(&[0x22u8; 32]).map_err(en)?.seal(&pk).map_err(en)?.to_string())
+                }
+                "lkey" => Ok(hex(Key::<V, Local>::random().map_err(en)?.expose_key().as_raw_bytes())),
+                "skey" => {
+                    if b == Be::V1 { return Err(bad()); }
+                    Ok(hex(Key::<V, Secret>::random().map_err(en)?.expose_key().as_raw_bytes()))
+                }
+                _ => Err(bad()),
+            }
+        })());
+        let (consumed, failed) = script_stats();
+        return match r {
+            Ok(a) => Ok(format!("produced=1 consumed={} failed={} art={}", consumed, failed, &hex(a.as_bytes())[..a.len().min(60)])),
+            Err(e) if e == "bad-op" => Err(e),
+            Err(e) => Ok(format!("produced=0 consumed={} failed={} err={}", consumed, failed, e)),
+        };
+    }
     if t[0].starts_with("rng.") {
         if !cfg!(pm_custom_rng) {
             return Err(bad());
